@@ -4,7 +4,6 @@
 -/
 import Upnp.Lemmas.C11Vals
 import Upnp.Lemmas.C09Reg
-import Upnp.Props.C10
 namespace Upnp.C11
 open Upnp PyDict Upnp.C09 Upnp.C10
 
@@ -90,9 +89,9 @@ theorem handleNotify_ok (h : Handler) (n : Notify) (tick : Nat) (hk : hdrsOk n.h
       | none => ({ h with backlog := set h.backlog s ((get? h.backlog s).getD [] ++ [n]) }, .status 200)
       | some i => ({ h with svcs := modifyAt h.svcs i fun sv => notifyChanged sv (changesOf n.body) tick }, .status 200) := by
   have h200 := (hdrsOk_specStatus n.hdrs).mp hk
-  have hl := (status_spec n.hdrs).1
+  have hl := (ladder_spec n.hdrs).1
   rw [if_pos h200] at hl
-  simp only [handleNotify, hl, hs, (status_spec n.hdrs).2.1, (status_spec n.hdrs).2.2]
+  simp only [handleNotify, hl, hs, (ladder_spec n.hdrs).2.1, (ladder_spec n.hdrs).2.2]
   cases get? h.rt s <;> rfl
 
 /-- `handle_notify` for a request with invalid headers: nothing happens -/
@@ -100,7 +99,7 @@ theorem handleNotify_bad (h : Handler) (n : Notify) (tick : Nat) (hk : hdrsOk n.
     (handleNotify h n tick).1 = h := by
   have h200 : specStatus n.hdrs ≠ 200 := by
     intro e; rw [← hdrsOk_specStatus] at e; rw [hk] at e; cases e
-  have hl := (status_spec n.hdrs).1
+  have hl := (ladder_spec n.hdrs).1
   rw [if_neg h200] at hl
   simp [handleNotify, hl]
 
